@@ -31,16 +31,19 @@ Definition a_step (x : nat) (s : kv) (a : astate) : kv * astate :=
   | _ => (s, a)
   end.
 
-(* PutOperation for a new operation y *)
+(* OperationService.PutOperation for a new operation y: GetOperationByID (already pending: done),
+   then the repository's PutOperation *)
 Record bstate := { b_pc : nat; b_d : list nat; b_o : list nat; b_abort : bool }.
-Definition b_labels : list nat := [1; 2; 4].
+Definition b_labels : list nat := [1; 2; 1; 2; 4].
 Definition b_step (y : nat) (s : kv) (b : bstate) : kv * bstate :=
   if b_abort b then (s, b) else
   match b_pc b with
-  | 0 => (s, {| b_pc := 1; b_d := k_del s; b_o := b_o b; b_abort := false |})
-  | 1 => (s, {| b_pc := 2; b_d := b_d b; b_o := k_ops s; b_abort := mem y (visible (k_ops s) (b_d b)) |})
-  | 2 => ({| k_ops := visible (b_o b) (b_d b) ++ [y]; k_del := k_del s |},
-          {| b_pc := 3; b_d := b_d b; b_o := b_o b; b_abort := false |})
+  | 0 => (s, {| b_pc := 1; b_d := k_del s; b_o := b_o b; b_abort := false |})            (* GetOperationByID: Get deleted *)
+  | 1 => (s, {| b_pc := 2; b_d := b_d b; b_o := k_ops s; b_abort := mem y (visible (k_ops s) (b_d b)) |}) (* Get operations *)
+  | 2 => (s, {| b_pc := 3; b_d := k_del s; b_o := b_o b; b_abort := false |})            (* PutOperation: Get deleted *)
+  | 3 => (s, {| b_pc := 4; b_d := b_d b; b_o := k_ops s; b_abort := mem y (visible (k_ops s) (b_d b)) |}) (* Get operations *)
+  | 4 => ({| k_ops := visible (b_o b) (b_d b) ++ [y]; k_del := k_del s |},
+          {| b_pc := 5; b_d := b_d b; b_o := b_o b; b_abort := false |})                 (* Set operations *)
   | _ => (s, b)
   end.
 
@@ -77,7 +80,7 @@ Fixpoint pos_of (side : bool) (k : nat) (sched : list bool) (i : nat) : nat :=
 
 (* the poller's pool write falls between the request's last read of the pool and its pool write *)
 Definition in_lost_window (sched : list bool) : bool :=
-  let bw := pos_of false 2 sched 0 in
+  let bw := pos_of false 4 sched 0 in
   Nat.ltb (pos_of true 5 sched 0) bw && Nat.ltb bw (pos_of true 6 sched 0).
 
 Definition pending_after (sched : list bool) : list nat :=
